@@ -13,6 +13,9 @@
     (pxd_nwk s) (pxd_nwk_recs ..) Newick() of the trees read, one per line, and its records, (pxd_nexus ..)(_err)(_recs)
     document -> WriteNexus -> read.
 
+    optional in the case: (nxdoc "a Nexus file") -- the same trees, in order, as TREE statements spread over several TREES
+    blocks, rendered by the generator; obs has (nxd_recs ..), the records of the multi-tree reader on it.
+
     Domain of the oracle (the quantifier of C13): every tree is well formed in the sense of
     C01 ([wfN]: >= 2 tips, root with >= 2 children, ...), carries no comment and no p-value,
     and every non-empty name is legal in the three formats: free of blanks, '=', quotes,
@@ -291,6 +294,51 @@ Definition px_doc_oracle (ts : list utree) (c o : sexp) : option string :=
     end
   end.
 
+(** a Nexus file with several TREES blocks *)
+Fixpoint file_go (what : string) (i : nat) (ts : list utree) (rs : list oitem) : option string :=
+  match ts, rs with
+  | [], [] => None
+  | [], r :: _ =>
+    if is_tree_item r then Some (what ++ ": an extra record after the " ++ string_of_nat i ++ " trees of the file")
+    else None
+  | _ :: _, [] => Some (what ++ ": tree " ++ string_of_nat i ++ " of the file is silently skipped (the stream ends after " ++
+                        string_of_nat i ++ " records without an error)")
+  | t :: tr, r :: rr =>
+    if negb (is_tree_item r) then None          (* an error is reported *)
+    else if negb (Nat.eqb (i_id r) i) then Some (what ++ ": record " ++ string_of_nat i ++ " has id " ++ string_of_nat (i_id r))
+    else match rec_problem r with
+         | Some m => Some (what ++ ": record " ++ string_of_nat i ++ ": " ++ m)
+         | None =>
+           if same_rose t r then file_go what (S i) tr rr
+           else Some (what ++ ": record " ++ string_of_nat i ++ " is not tree " ++ string_of_nat i ++
+                      " of the file but " ++ i_nwk r ++ " (a tree is silently skipped or altered)")
+         end
+  end.
+
+Definition nx_doc_corr (c o : sexp) : option string :=
+  match get_string "nxdoc" c with
+  | None => None
+  | Some text =>
+    match recs_of "nxd_recs" o with
+    | Some recs =>
+      match nexus_model_recs text with
+      | Some (_, ms) => cmp_records "Nexus file with several TREES blocks: reader" ms recs
+      | None => Some "Nexus file with several TREES blocks: model predicts a panic or hang"
+      end
+    | None => Some "undecodable observation"
+    end
+  end.
+
+Definition nx_doc_oracle (ts : list utree) (c o : sexp) : option string :=
+  match get_string "nxdoc" c with
+  | None => None
+  | Some _ =>
+    match recs_of "nxd_recs" o with
+    | Some recs => file_go "Nexus file with several TREES blocks" 0 (map strip_sup ts) recs
+    | None => Some "undecodable observation"
+    end
+  end.
+
 Definition corr (ts : list utree) (translate breaks : bool) (breakat : list nat) (seps : list string) (o : sexp) : option string :=
   match get_strings "texts" o, get_string "src" o, get_string "nexus" o, get_string "tnexus" o,
         (x <- get "multi" o ;; dec_list dec_item x),
@@ -374,10 +422,10 @@ Definition judge (c o : sexp) : verdict :=
     | Some ts, Some translate, Some breaks, Some seps =>
       let breakat := match get_nats "breakat" c with Some l => l | None => [] end in
       let dom := forallb in_domain_px ts in
-      match (if dom then first_some [oracle ts o; px_doc_oracle ts c o] else None) with
+      match (if dom then first_some [oracle ts o; px_doc_oracle ts c o; nx_doc_oracle ts c o] else None) with
       | Some m => VOracle m
       | None =>
-        match first_some [corr ts translate breaks breakat seps o; px_doc_corr ts translate c o] with
+        match first_some [corr ts translate breaks breakat seps o; px_doc_corr ts translate c o; nx_doc_corr c o] with
         | Some m => if String.eqb m "undecodable observation" then VBad m else VCorr m
         | None => VOk dom (if dom then (if translate then "translate" else "plain") else "outside-domain")
         end
